@@ -150,6 +150,38 @@ fn verif_frame_crypto_roundtrip() {
     assert!(data[k] == payload[k]);
 }
 
+// announced size for LARGE payloads (the round trip above is limited to 4 data bytes): any offset,
+// any data length up to 20 000 bytes (across the varint boundaries of the Length field):
+// encoding_size() == type + offset + length + data (RFC 9000 19.6). Size computation only.
+
+fn varint_len_large(v: u64) -> usize {
+    if v < 1 << 6 {
+        1
+    } else if v < 1 << 14 {
+        2
+    } else if v < 1 << 30 {
+        4
+    } else {
+        8
+    }
+}
+
+static ZEROS_LARGE: [u8; 20_000] = [0u8; 20_000];
+
+#[cfg_attr(kani, kani::proof)]
+#[cfg_attr(kani, kani::unwind(9))]
+fn verif_frame_crypto_announced_size() {
+    let offset: u64 = kani::any();
+    kani::assume(offset <= MAX_VARINT);
+    let data_len: usize = kani::any();
+    kani::assume(data_len <= 20_000);
+    let frame: CryptoRef = Crypto { offset: VarInt::new(offset).unwrap(), data: &ZEROS_LARGE[..data_len] };
+    let size = frame.encoding_size();
+    assert!(size == 1 + varint_len_large(offset) + varint_len_large(data_len as u64) + data_len);
+    kani::cover!(data_len == 63, "largest payload with a 1-byte length");
+    kani::cover!(data_len == 16384, "smallest payload with a 4-byte length");
+}
+
 // ---- generated by tools/fixup.py: native replay entry ----
 #[cfg(not(kani))]
 #[test]
@@ -157,5 +189,6 @@ fn verif_replay() {
     kani::replay(&[
         ("verif_frame_crypto_decode_diff", verif_frame_crypto_decode_diff),
         ("verif_frame_crypto_roundtrip", verif_frame_crypto_roundtrip),
+        ("verif_frame_crypto_announced_size", verif_frame_crypto_announced_size),
     ]);
 }
